@@ -75,7 +75,8 @@ func (b *vBook) fetch(idx int) (*vPage, error) {
 // stream pages
 type vStreamPage struct{ vPage }
 
-func (p *vStreamPage) HasFuture() bool { return true }
+// only the last page that exists so far carries the link to the future
+func (p *vStreamPage) HasFuture() bool { return p.idx == p.book.nPresent-1 }
 func (p *vStreamPage) GetNext(ctx context.Context) (IPage, error) {
 	np, err := p.book.fetch(p.idx + 1)
 	if err != nil {
@@ -86,6 +87,9 @@ func (p *vStreamPage) GetNext(ctx context.Context) (IPage, error) {
 func (p *vStreamPage) GetFuture(ctx context.Context) (IStream, error) {
 	// the future of the last present page: one more page becomes present, if any is left
 	b := p.book
+	if !p.HasFuture() {
+		return nil, errVerifPage
+	}
 	b.futureSeen++
 	if b.nPresent < len(b.pages) {
 		b.nPresent++
